@@ -249,6 +249,21 @@ Proof.
   specialize (H e Hin). rewrite Hc, Hm in H. rewrite Hf in H. specialize (H eq_refl). discriminate.
 Qed.
 
+(* ---------- the fee whitelist selects the fee, never the flag condition ---------- *)
+Theorem whitelist_affects_fee_only : forall required current wl wl' fee,
+  gate_runs (native_call_gate required current wl fee) = gate_runs (native_call_gate required current wl' fee) /\
+  (gate_runs (native_call_gate required current wl fee) = true <-> has current required = true).
+Proof.
+  intros. unfold native_call_gate. destruct (has current required); simpl; split; auto; split; auto; discriminate.
+Qed.
+
+Definition nested_gate_statement : Prop :=
+  forall required current wl fee,
+    gate_runs (native_call_gate_nested required current wl fee) = true -> has current required = true.
+
+Theorem nested_gate_refuted : ~ nested_gate_statement.
+Proof. intros H. specialize (H AllFlags 0 (Some 0) 0 eq_refl). vm_compute in H. discriminate. Qed.
+
 (* ---------- the effect machine ---------- *)
 Lemma find_interop_some name l e : find_interop name l = Some e -> In e l /\ io_name e = name.
 Proof.
